@@ -7,6 +7,7 @@ import (
 	"go/token"
 	"go/types"
 	"os"
+	"path/filepath"
 	"sort"
 	"strings"
 
@@ -30,6 +31,7 @@ type World struct {
 	allTypes   map[string]*types.Package // path -> package (all reachable)
 	byName     map[string][]*types.Package
 	axiomsDone map[*Unit]map[string]bool
+	allFns     map[*ssa.Function]bool
 }
 
 type Trace struct {
@@ -151,6 +153,9 @@ func (w *World) funcID(fn *ssa.Function) int {
 
 // funcKey is the contract key of a function: Name, (*T).M, (T).M, Parent$1.
 func funcKey(fn *ssa.Function) string {
+	if strings.HasPrefix(fn.Name(), "init#") && fn.Prog != nil {
+		return "init@" + filepath.Base(fn.Prog.Fset.Position(fn.Pos()).Filename)
+	}
 	if fn.Parent() != nil {
 		return funcKey(fn.Parent()) + strings.TrimPrefix(fn.Name(), fn.Parent().Name())
 	}
@@ -303,6 +308,18 @@ func (w *World) findFunction(c *Contract) *ssa.Function {
 			return findAnon(fn, mname+anon)
 		}
 		return fn
+	}
+	if strings.HasPrefix(key, "init@") {
+		// a declared init function, identified by the file it lives in
+		file := strings.TrimPrefix(key, "init@")
+		for name, m := range sp.Members {
+			if fn, ok := m.(*ssa.Function); ok && strings.HasPrefix(name, "init#") {
+				if filepath.Base(w.Fset.Position(fn.Pos()).Filename) == file {
+					return fn
+				}
+			}
+		}
+		return nil
 	}
 	name := key
 	anon := ""
